@@ -150,7 +150,7 @@ def one_case(task):
 def positions(n, m, quick):
     rows = sorted(set(range(-3, 4)) | set(range(n - 2, n + 3)))
     cols = sorted(set(range(-3, 4)) | set(range(m - 2, m + 3)))
-    far_rows = [1_000_000, 1_000_001] + ([] if quick else [999_998, 999_999])
+    far_rows = [1_000_000, 1_000_001]  # growth to row 999999 itself is one dedicated thorough case (1M rows x 1 column)
     far_cols = [998, 999, 1000, 1001]
     pos = [("r", r, c) for r in rows for c in cols]
     pos += [("r", r, c) for r in far_rows for c in (0, m - 1, -1)]
